@@ -9,6 +9,8 @@ RotateAssemblyOffGridB(h) == Live /\ RotateAssemblyOffGrid(h)
 NextB == \/ \E b \in 1..NB, k \in -K..K : RotateBlockB(b, k)
          \/ \E k \in -K..K : RotateAssemblyB(k)
          \/ \E h \in -H..H : RotateAssemblyOffGridB(h)
+\* emission of assemblies: states on the last level are observed (EmitState) but not expanded
+NextE == Live /\ Next
 View  == vars                                  \* emission configs: one node per (configuration, steps so far)
 Emit  == PrintT(ToJson([lvl |-> TLCGet("level"), from |-> Vars, act |-> act',
                         to |-> [cfg |-> [b \in 1..Len(blocks') |-> CfgOf(blocks'[b])], tot |-> tot'], err |-> err']))
